@@ -88,7 +88,17 @@ func C15_SetStep() {
 	K := rt.Param("K", 3)
 	s, m := arbitrarySet("s", K)
 	checkSet(s, m, "constructed")
-	switch rt.Choose("op", 5) {
+	switch rt.Choose("op", 6) {
+	case 5: // two unions on the same receiver
+		t1, m1 := arbitrarySet("t", rt.Param("KU", 2))
+		t2, m2 := arbitrarySet("u", rt.Param("KU", 2))
+		r1 := s.Union(t1)
+		r2 := s.Union(t2)
+		checkSet(r1, specUnion(m, m1), "union2-first-result")
+		checkSet(r2, specUnion(m, m2), "union2-second-result")
+		checkSet(s, m, "union2-receiver-unchanged")
+		checkSet(t1, m1, "union2-first-argument-unchanged")
+		checkSet(t2, m2, "union2-second-argument-unchanged")
 	case 0: // Insert
 		v := rt.Int("v")
 		r := s.Insert(v)
@@ -274,6 +284,13 @@ func C15_MapStep() {
 		checkMap(r, []kv{{a, b + 1}}, "adopted-inc-result")
 		checkMap(w, []kv{{a, b}}, "adopted-unchanged")
 		rt.Assert(src[a] == b && len(src) == 1, "caller-map-unchanged")
+		// Filter keeps a present key whatever its value is (zero, negative)
+		f := w.Filter(data.NewIntSet(a))
+		checkMap(f, []kv{{a, b}}, "adopted-filter-keeps-present-key")
+		c := rt.Int("c")
+		if c != a {
+			checkMap(w.Filter(data.NewIntSet(c)), nil, "adopted-filter-drops-absent-key")
+		}
 	}
 }
 
